@@ -2050,9 +2050,8 @@ func marshalTuple(info TypeInfo, value interface{}) ([]byte, error) {
 				return nil, err
 			}
 
-			n := len(data)
-			buf = appendInt(buf, int32(n))
-			buf = append(buf, data...)
+			// a component that marshals to nil (typed nil pointer, nil slice) is null
+			buf = appendBytes(buf, data)
 		}
 
 		return buf, nil
@@ -2082,9 +2081,8 @@ func marshalTuple(info TypeInfo, value interface{}) ([]byte, error) {
 				return nil, err
 			}
 
-			n := len(data)
-			buf = appendInt(buf, int32(n))
-			buf = append(buf, data...)
+			// a component that marshals to nil (typed nil pointer, nil slice) is null
+			buf = appendBytes(buf, data)
 		}
 
 		return buf, nil
@@ -2108,9 +2106,8 @@ func marshalTuple(info TypeInfo, value interface{}) ([]byte, error) {
 				return nil, err
 			}
 
-			n := len(data)
-			buf = appendInt(buf, int32(n))
-			buf = append(buf, data...)
+			// a component that marshals to nil (typed nil pointer, nil slice) is null
+			buf = appendBytes(buf, data)
 		}
 
 		return buf, nil
